@@ -93,6 +93,8 @@ struct Ctx {
   bool logging = false;     // decoded-case log wanted (replay / samples)
   bool echo = false;        // print log lines as they are produced (so they survive a sanitizer abort)
   bool nontrivial = false;  // set by the case when the property's NT rule holds
+  bool include_known = false;  // generate the regions excluded because of a listed known finding (witness replay only)
+  uint64_t excluded_known = 0; // choices re-drawn because they fall into a listed known finding
   std::vector<std::string> log;
   std::map<std::string, uint64_t> *classes = nullptr;
   uint64_t ops = 0;         // operations executed (statistics)
